@@ -7100,6 +7100,10 @@ class FrameGO(Frame):
         if isinstance(container, Frame):
             if not len(container.columns):
                 return
+            # validate all labels before mutating, so that a rejected extend leaves columns and blocks in step
+            for key in container._columns:
+                if key in self._columns:
+                    raise KeyError(f'duplicate key append attempted: {key}')
             self._columns.extend(container.keys())
             self._blocks.extend(container._blocks)
         elif isinstance(container, Series):
